@@ -7,6 +7,7 @@ pub mod c07;
 pub mod c08;
 pub mod c09;
 pub mod c10;
+pub mod c11;
 pub mod c14;
 pub mod c15;
 pub mod c16;
@@ -24,6 +25,7 @@ pub fn all() -> Vec<Box<dyn DynProp>> {
         Box::new(c08::C08),
         Box::new(c09::C09),
         Box::new(c10::C10),
+        Box::new(c11::C11),
         Box::new(c14::C14),
         Box::new(c15::C15),
         Box::new(c16::C16::default()),
